@@ -132,7 +132,7 @@ class Gen:
                 ps = self.params(np if np < 2 else r.randint(0, 3), tparams)
                 if op in ("++", "--") and r.random() < 0.5:
                     ps = "int"
-                ps = ps.replace(", ...", "").replace("...", "int") if np < 2 else ps
+                ps = ps.replace(", ...", "").replace("...", "") if np < 2 else ps
                 if (op, ps) in seen:
                     continue
                 seen.add((op, ps))
@@ -825,3 +825,73 @@ def grammar_names(rng, n, maxlen=400):
         if len(s) <= maxlen:
             out.append(s.encode())
     return out
+
+
+# ---------------------------------------------------------------------------------------------
+# local classes (classes defined inside functions / member functions): `_ZZ <encoding> E <name> [_<d>]`
+def local_source(rng, class_params=False):
+    """member functions, ctors, dtors and operators of local classes, including same-named local classes
+    in different blocks (which get a discriminator `_0`, `_1`, …).  With class_params=False the members of
+    the discriminated classes only take builtin parameters (a discriminator directly followed by a
+    <source-name> length is mis-parsed by the demangler, observation F10i).
+    returns (source text, {line: (expected, kind)})"""
+    lines = ["struct LB { }; struct LongerName { };"]
+    linemap = {}
+    uid = [0]
+
+    def fresh(p):
+        uid[0] += 1
+        return "%s%d" % (p, uid[0])
+
+    def emit(t, exp=None, kind=None):
+        lines.append(t)
+        if exp is not None:
+            linemap[len(lines)] = (exp, kind)
+
+    def block(q, cname, first):
+        ptypes = ["int", "char *", "long", "double &"] + (["LB", "LongerName", "LB *"] if (class_params or first) else [])
+        emit("{ struct %s {" % cname)
+        uses = []
+        emit("%s() { }" % cname, q + cname + "::" + cname, "local:ctor")
+        emit("~%s() { }" % cname, q + cname + "::~" + cname, "local:dtor")
+        for _ in range(rng.randrange(1, 4)):
+            m = fresh("lm")
+            pt = rng.choice(ptypes)
+            emit("void %s(%s) { }" % (m, pt), q + cname + "::" + m, "local:method")
+            uses.append((m, pt))
+        emit("int operator+(int) { return 0; }", q + cname + "::operator+", "local:operator")
+        emit("struct In { void %s() { } int f_; };" % fresh("li"), q + cname + "::In::li%d" % uid[0], "local:method")
+        emit("int f_; };")
+        call = "%s o; o + 1; %s::In i; i.li%d();" % (cname, cname, uid[0])
+        for m, pt in uses:
+            if pt.endswith("&"):
+                call += " { double d = 0; o.%s(d); }" % m
+            elif pt.endswith("*"):
+                call += " o.%s(0);" % m
+            elif pt in ("LB", "LongerName"):
+                call += " o.%s(%s());" % (m, pt)
+            else:
+                call += " o.%s(0);" % m
+        emit(call + " }")
+
+    for _ in range(rng.randrange(3, 6)):
+        f = fresh("lf")
+        emit("void %s(%s) {" % (f, rng.choice(["", "int", "LB"])))
+        names = [fresh("A")]
+        seq = [names[0], names[0], fresh("Bq"), names[0]]
+        seen = set()
+        for cn in seq:
+            block(f + "::", cn, cn not in seen)
+            seen.add(cn)
+        emit("}")
+    ns = fresh("lns")
+    k = fresh("LK")
+    emit("namespace %s { struct %s {" % (ns, k))
+    m = fresh("meth")
+    emit("void %s() {" % m)
+    cn = fresh("L")
+    block("%s::%s::%s::" % (ns, k, m), cn, True)
+    block("%s::%s::%s::" % (ns, k, m), cn, False)
+    emit("}")
+    emit("int f_; }; void use%d() { %s().%s(); } }" % (uid[0], k, m))
+    return "\n".join(lines) + "\n", linemap
